@@ -81,6 +81,11 @@ def pumps(r):
     if k < 0.88:
         d = min(n, 12)
         return "".join("`" * (d + 3 - i) + "{note} L%d\n" % i for i in range(d)) + "x\n" + "".join("`" * (4 + i) + "\n" for i in range(d))
+    if k < 0.91:
+        # a unit of plugin syntax repeated, on one line or one per line (long runs of adjacent plugin tokens)
+        unit = r.choice(["[a(b)]", "[a(b)][c(d)]", "[^1]", "[^n] ", "$a$", "$a$ ", ">!a!<", "~a~", "^a^", "~~a~~", "==a==", "^^a^^", "HTML ",
+                         "http://x.y ", "[x] ", "a|b ", "[a(b)](/u)", "[a(b)][r]"])
+        return r.choice(["", "# ", "> ", "- "]) + unit * (n * r.choice([1, 8])) + r.choice(["\n", "\n\n[r]: /u\n[^1]: note\n*[HTML]: x\n"])
     if k < 0.94:
         return "~~" * n + "a" + "~~" * n + " " + "==" * n + "b" + "==" * n + " >!" * min(n, 50) + "c" + "!< " * min(n, 50) + "\n"
     return "term\n" + ": def\n" * min(n, 100) + "\n| a |\n|---|\n" + "| b |\n" * min(n, 100)
@@ -141,8 +146,12 @@ def sample_cfg(r):
         return {"api": "markdown()", "escape": r.random() < 0.5, "plugins": r.choice([None, ["table"], ["footnotes", "url"]])}
     plugins = r.sample(P + ["speedup"], r.randint(0, len(P) + 1)) if r.random() < 0.7 else list(P)
     d = r.choice([None, None, "fenced", "rst", "colon"])
-    return {"renderer": r.choice(["html", "html", "ast"]), "escape": r.random() < 0.6, "hard_wrap": r.random() < 0.3,
-            "plugins": plugins, "directives": d}
+    cfg = {"renderer": r.choice(["html", "html", "ast"]), "escape": r.random() < 0.6, "hard_wrap": r.random() < 0.3,
+           "plugins": plugins, "directives": d}
+    if d is None and cfg["renderer"] == "html" and r.random() < 0.4:
+        # add_toc_hook: heading texts are parsed a second time, outside the document (the hook asserts a renderer)
+        cfg["toc_hook"] = True
+    return cfg
 
 
 def check(w, cfg, doc, fails, limit):
@@ -218,11 +227,11 @@ def oracle(ctx, extra):
             "input_distribution": dist,
             "rule": "first 84 systematic indentation staircases (10 marker sets of core and plugin containers x step 2/3/4 x with/without a head line, and 6 lone markers x step 2/3 x at top level/inside 5 quotes; 400 levels) under all plugins, html and ast; then documents: 45% generated (all plugins, directives), 15% nesting pumps (quotes, lists, mixed containers, "
                     "emphasis, brackets, alternating link/image, code ticks, angle brackets, indentation staircases of block markers, RST/colon/backtick directives, "
-                    "formatting plugins, def lists and tables; depth/length 8-400), 12% generated documents with hostile code "
+                    "formatting plugins, repeated units of every inline plugin syntax (up to 3200 adjacent tokens), def lists and tables; depth/length 8-400), 12% generated documents with hostile code "
                     "points inserted (controls, line/paragraph separators, BOM, non-characters, combining, bidi, astral), 3% lone "
                     "surrogates, 12% noise up to 200 tokens, 13% interrupt/lazy fragments; each document under 2 sampled "
                     "configurations (renderer html/ast/rst/markdown, escape, hard_wrap, random plugin subset incl. speedup, "
-                    "directive style, mistune.html, mistune.markdown()) in one long-lived worker with a per-document wall limit",
+                    "directive style, add_toc_hook, mistune.html, mistune.markdown()) in one long-lived worker with a per-document wall limit",
             "samples": [json.dumps(pumps(ctx.rng('s')))[:120], json.dumps(sample_cfg(ctx.rng('t')))]}
 
 
